@@ -41,3 +41,11 @@ def rt_cancel(m):
 
 def rt_interrupt(m):
     return M.Interrupt.parse(m.marshal())
+
+
+def rt_unsubscribe(m):
+    return M.Unsubscribe.parse(m.marshal())
+
+
+def rt_unregister(m):
+    return M.Unregister.parse(m.marshal())
